@@ -48,7 +48,7 @@ def gen_op(rng, G, t, depth=0):
 
 def gen(seed, index):
     rng = rng_for(PID, seed, index)
-    G = g.G(rng)
+    G = g.G(rng, tags=True, tempi=True)      # containers carry tags and tempi (opaque ids in the model)
     t = G.tree(kind=rng.choice(["S", "S", "S", "P"]))
     ops = [gen_op(rng, G, t) for _ in range(rng.choice([0, 1, 1, 2, 3, 4, 5]))]
     return ["c01", t] + ops
